@@ -26,11 +26,11 @@ type DriveOpts struct {
 // Stats of a run.
 type Stats struct {
 	Chains, Blocks, EthTxs, Schedules, Crashes, RpcQueries, Events int
-	Classes                                                       map[string]int
-	Pairs                                                         map[string]bool // distinct (block shape, crash position) pairs with >= 1 Ethereum tx
-	ViewShapes                                                    map[string]bool // distinct block shapes with >= 1 admitted Ethereum tx seen through the RPC views
-	GoMismatch                                                    int
-	Stuck                                                         []string
+	Classes                                                        map[string]int
+	Pairs                                                          map[string]bool // distinct (block shape, crash position) pairs with >= 1 Ethereum tx
+	ViewShapes                                                     map[string]bool // distinct block shapes with >= 1 admitted Ethereum tx seen through the RPC views
+	GoMismatch                                                     int
+	Stuck                                                          []string
 }
 
 // ChainEvent is the first line of a chain's trace: the consensus facts of every block.
@@ -127,7 +127,7 @@ func Drive(out *trace.W, o DriveOpts) Stats {
 		}
 		// the node prunes its block store while the service is down: first catch up to t1, restart with blocks < e gone
 		if r.Last >= 5 {
-			t1 := 2 + rr.Int63n(r.Last-4)          // 2 .. Last-3
+			t1 := 2 + rr.Int63n(r.Last-4)      // 2 .. Last-3
 			e := t1 + 1 + rr.Int63n(r.Last-t1) // t1+1 .. Last (t1+1: pruned exactly up to the indexed point)
 			if e > r.Last {
 				e = r.Last
